@@ -439,7 +439,10 @@ def gen_comments(loader, check, replay_on=True):
             o = mk(it)
             o.stubs.pop("__str__", None)
             nch = _abstract_children(it, o)
-            return {"o": o, "nch": nch}
+            kids = [c for f in ("ops", "effect_ops") if isinstance(o.fields.get(f), list) for c in o.fields[f] if isinstance(c, Obj)]
+            kids += [o.fields[f] for f in CHILD_FIELDS if isinstance(o.fields.get(f), Obj)]
+            it.ctx.mark_pre(o, *kids)
+            return {"o": o, "nch": nch, "kids": kids}
         ex = explore(loader, setup, lambda it, st: it.str_(st["o"]))
         check.absorb(ex, f"__str__ {lab}")
         if ex.paths:
@@ -473,6 +476,11 @@ def gen_comments(loader, check, replay_on=True):
                         elif part.kind not in ("str", "fmtint", "fmtbool"):
                             return False, f"text of unknown shape {part!r}"
                 return True, ""
+            # printing is an observation: it reads no operand (a read would spend the operand's raw use in a comment) and writes nothing
+            reads = [k.label for k in p.state["kids"] if k.ghost.get("nreads", 0)]
+            writes = [(getattr(o_, "label", None) or repr(o_), f) for (o_, f, _, _) in p.ctx.pre_writes()]
+            check.ob("__str__#comment.pure: printing a node reads no operand and changes nothing", pi, p.ctx.pc, not reads and not writes,
+                     detail=f"il_read() called on {reads}; fields written {writes[:3]}", replay=("c11.comment_pure", lambda m: {}) if replay_on else None)
             ok, why = one_line(p.value)
             check.ob("__str__#comment.one-line: the printed form of a node contains no line break if its children's do not", pi, p.ctx.pc, ok,
                      detail=why or emit.as_tpl(p.value).render(lambda a: f"<{a.tag}>")[:120],
@@ -749,6 +757,26 @@ def gen_task(loader, check, what, replay_on=True):
 COMMENT_STMTS = ["{ RdV = RsV + 1; }", "{ if (RsV > 1) { RdV = RtV; } else { RdV = 2; } }", "{ if (RsV > 1) { RdV = RtV; } }", "{ for (i = 0; i < 2; i++) { RdV = RdV + i; } }",
                  "{ mem_store_u32(EA, RtV); }", "{ RdV = (RsV ? RtV : 3) & ~RtV; }", "{ RdV = mem_load_s16(EA); }", "{ JUMP(RsV); }",
                  "{ RdV = sextract64(RssV, 3, 2); }", "{ RdV = RsV++; }", "{ RdV = !RsV && (RtV == 1); }", "{ RdV = sizeof(RsV) + siV; }", "{ ; }", "{ RdV += RsV; }"]
+
+
+@replay.register("c11.comment_pure")
+def replay_comment_pure(a):
+    """the two layouts print the same initialisers; only READ_STATEMENTS prints statement comments - if printing consumed a read, the
+    operand's raw use would be missing there: compile statements in both layouts and compare the initialisers"""
+    from rzilcompiler.Transformer.RZILTransformer import CodeFormat
+    a_, b_ = irkit.real_compiler(), irkit.real_compiler("EXEC_CLASSES")
+    bad = []
+    for stmt in COMMENT_STMTS + ["{ RdV = mem_load_s32(RsV); }", "{ mem_store_u32(RsV, RtV); }", "{ JUMP(RsV); }", "{ RdV = sextract64(RssV, 3, 2); }"]:
+        try:
+            ta, tb = a_.compile_c_stmt(stmt), b_.compile_c_stmt(stmt)
+        except Exception:          # noqa: BLE001
+            continue
+        ia = sorted(l.strip() for l in ta.splitlines() if l.strip().startswith(("RzILOp", "const ")))
+        ib = sorted(l.strip() for l in tb.splitlines() if l.strip().startswith(("RzILOp", "const ")))
+        if ia != ib:
+            diff = [x for x in ia if x not in ib][:2]
+            bad.append(f"{stmt}: with statement comments {diff}")
+    return bool(bad), "initialisers differ between the layout that prints statement comments and the one that does not: " + "; ".join(bad[:2])
 
 
 @replay.register("c11.comment")
